@@ -185,12 +185,17 @@ def createSending (sm : Msg) (maxSZX maxSize block : Nat) : Option (Msg × Bool)
 def createSendingFirst (sm : Msg) (maxSZX maxSize block : Nat) : Option (Msg × Bool) :=
   createSendingWith startSkipsSent sm maxSZX maxSize block
 
+/-- the zero time ("never expires") that `Do` gives the entry of a request whose context has no deadline — the entry then
+    lives until `Do`'s deferred `Delete` (repair F35).  `Entry.validUntil` is an `Int`: "never" is a time later than any a
+    history reaches (2^62 ns, about 146 years after the epoch of the scenario). -/
+def never : Int := 4611686018427387904
+
 /-- `Do` up to the call of `do(req)` on the sending slot of the request's token: the slot afterwards and the message
     handed to `do` (`none`: `Do` returned an error; its deferred `Delete` is already applied). -/
 def doStartS (cfg : Cfg) (snd : Option Entry) (now : Int) (r : Msg) : Option Entry × Option Msg :=
   if cfg.szx > 7 then (snd, none) else
   if r.tok = 0 then (snd, none) else
-  let expire := match r.deadline with | some d => d | none => now + cfg.expiration
+  let expire := match r.deadline with | some d => d | none => never   -- `expire, _ := r.Context().Deadline()`
   let (snd1, loaded) := storeIfAbsent snd ⟨r, expire⟩ now
   if loaded then (snd, none) else
   let len := r.body.length
